@@ -44,7 +44,7 @@ func (c Channel) TokenReader() xml.TokenReader {
 	}
 	if len(c.Extensions) > 0 {
 		payloads = append(payloads, xmlstream.Wrap(
-			xml.NewDecoder(bytes.NewReader(c.Extensions)),
+			stripNSDecl(xml.NewDecoder(bytes.NewReader(c.Extensions))),
 			xml.StartElement{
 				Name: xml.Name{Local: "extensions"},
 			},
@@ -68,6 +68,28 @@ func (c Channel) TokenReader() xml.TokenReader {
 			Attr: conferenceAttrs,
 		},
 	)
+}
+
+// stripNSDecl removes namespace declarations from the start elements of r.
+// The encoder writes the declarations an element needs from the names of the
+// element and its attributes; passing the original declarations through as
+// attributes would write them a second time.
+func stripNSDecl(r xml.TokenReader) xml.TokenReader {
+	return xmlstream.Map(func(t xml.Token) xml.Token {
+		start, ok := t.(xml.StartElement)
+		if !ok {
+			return t
+		}
+		attr := make([]xml.Attr, 0, len(start.Attr))
+		for _, a := range start.Attr {
+			if a.Name.Space == "xmlns" || (a.Name.Space == "" && a.Name.Local == "xmlns") {
+				continue
+			}
+			attr = append(attr, a)
+		}
+		start.Attr = attr
+		return start
+	})(r)
 }
 
 // WriteXML satisfies the xmlstream.WriterTo interface.
